@@ -45,6 +45,9 @@ type c02Case struct {
 	//     (other action) lists the syscall without conditions: relation holds => default action value, else the second
 	//     group's action.
 	Layout string `json:"layout,omitempty"`
+	// Prev: what the Policy value went through before this compilation ("edited-conds": it compiled other conditions
+	// in the same entries; "other-order": it was compiled under the other byte order; "edited": other groups).
+	Prev string `json:"prev,omitempty"`
 }
 
 type c02Ctx struct {
@@ -179,7 +182,12 @@ func checkC02(raw json.RawMessage) (ev.Result, error) {
 	default:
 		return ev.Result{}, ev.Inconclusivef("unknown layout %q", c.Layout)
 	}
-	cp, cerr, pan := compilePolicy(&p)
+	switch c.Prev {
+	case "", "edited-conds", "other-order", "edited":
+	default:
+		return ev.Result{}, ev.Inconclusivef("unknown history %q", c.Prev)
+	}
+	cp, cerr, pan := compilePolicyAfter(&p, c.Prev)
 	if pan != nil {
 		return ev.Result{}, fmt.Errorf("Assemble panicked: %v", pan)
 	}
@@ -237,6 +245,9 @@ func checkC02(raw json.RawMessage) (ev.Result, error) {
 	}
 	if c.Layout != "" {
 		res.Classes = append(res.Classes, "layout:"+c.Layout)
+	}
+	if c.Prev != "" {
+		res.Classes = append(res.Classes, "value-compiled-before:"+c.Prev)
 	}
 	if len(c.Before) > 0 || len(c.Between) > 0 || len(c.Plain) > 0 {
 		res.Classes = append(res.Classes, "entry-among-entries-for-other-syscalls")
@@ -402,6 +413,14 @@ func drawC02(t *rapid.T) c02Case {
 		default:
 			c.Noise[k] = rapid.Uint64().Draw(t, "noise")
 		}
+	}
+	switch rapid.IntRange(0, 9).Draw(t, "history") {
+	case 0, 1:
+		c.Prev = "edited-conds"
+	case 2:
+		c.Prev = "other-order"
+	case 3:
+		c.Prev = "edited"
 	}
 	return c
 }
